@@ -1403,7 +1403,9 @@ class Torrent():
 
             # Validate expected number of pieces
             piece_count = int(len(info['pieces']) / 20)
-            exp_piece_count = math.ceil(info['length'] / info['piece length'])
+            # NOTE: Floor division is exact for big integers and does not raise
+            #       OverflowError/ValueError for inf/nan.
+            exp_piece_count = -(-info['length'] // info['piece length'])
             if piece_count != exp_piece_count:
                 raise error.MetainfoError(f'Expected {exp_piece_count} pieces but there are {piece_count}')
 
@@ -1432,8 +1434,8 @@ class Torrent():
             # - validate() should ensure that ['info']['pieces'] is math.ceil(self.size /
             #   self.piece_size) bytes long.
             piece_count = int(len(info['pieces']) / 20)
-            exp_piece_count = math.ceil(sum(fileinfo['length'] for fileinfo in info['files'])
-                                        / info['piece length'])
+            exp_piece_count = -(-sum(fileinfo['length'] for fileinfo in info['files'])
+                                // info['piece length'])
             if piece_count != exp_piece_count:
                 raise error.MetainfoError(f'Expected {exp_piece_count} pieces but there are {piece_count}')
 
